@@ -665,7 +665,10 @@ def run_process(case):
     if 'sub' in case:
         subs = [tuple(case['sub'])]
     else:
-        tg = [0.4, 2.0, 3.6]
+        lo, hi = SUPPORT
+        if bound is not None:
+            lo, hi = max(lo, bound[0, 0]), min(hi, bound[0, 1])
+        tg = [lo + (hi - lo) * f for f in (0.1, 0.5, 0.9)]
         subs = [(a, b, lp, lc, fin) for a in tg for b in tg if a != b for lp in LLS[:3] for lc in LLS
                 for fin in (True, False)]
     n = acc = rej = 0
@@ -1185,7 +1188,7 @@ def run(ctx):
     one = [None] + [[list(r)] for r in rows]
     if want('mh-process'):
         cases = [{'kind': 'process', 'rows': r, 'prior': pr, 'ret': ret, 'useed': base + k}
-                 for r in one for pr in ('uniform', 'truncnorm') for ret in ('array1', 'float')
+                 for r in one if r is None or max(_f(r[0][0]), 0.0) < min(_f(r[0][1]), 4.0) for pr in ('uniform', 'truncnorm') for ret in ('array1', 'float')
                  for k in range(2 if q else 6)]
         _record_with_witness(ctx, g_process, cases, 'mh-process', sample_every=max(1, len(cases) // 3))
 
